@@ -225,6 +225,7 @@ func engineCHK(w *World, tier string) *EngineResult {
 	}
 	r.Stats["collector_call_sites"] = n
 	r.floor("collector_call_sites", 8)
+	chkWalk(w, r, checker)
 	r.finish()
 	return r
 }
